@@ -166,6 +166,10 @@ CURATED += [
     ('own-name-assigned-inside', 'fn disable() {\n    disable = null\n    return 1\n}\nprint(disable())\nprint(disable)\nfn counter() {\n    counter = @h1@\n}\ncounter()\nprint(counter)\n'),
     ('own-name-shadow', 'fn f(f) {\n    return f\n}\nprint(f(@h1@))\nfn g() {\n    g := @h2@\n    return g\n}\nprint(g())\nprint(g())\n'),
 ]
+CURATED += [
+    ('fn-underscore', 'fn _() {\n    return "a"\n}\nprint(1)\nfn _() {\n    return "b"\n}\nprint(2)\nif @b1@ {\n    print(_())\n}\n{\n    fn _(_, _) {\n        return 1\n    }\n    print(3)\n}\nprint(_)\n'),
+    ('this-declared', 'o := {"v": @h1@, "m": fn () {\n    print(this.v)\n    {\n        this := 5\n        print(this)\n    }\n    return this.v\n}, "bad": fn () {\n    print(this.v)\n    this := 100\n    print(this)\n    return this\n}}\nprint(o.m())\nif @b1@ {\n    print(o.bad())\n}\nprint(o.v)\n'),
+]
 def destructure_assign_kinds():
     pats = [('[a, b]', '[1, 2]'), ('[a, ..r]', '[1, 2, 3]'), ('{a}', '{"a": 1}'), ('{"k": a}', '{"k": 1}'), ('{a, ..r}', '{"a": 1, "b": 2}'), ('[a, [b]]', '[1, [2]]'), ('[a, {b}]', '[1, {"b": 2}]'), ('{"k": [a, ..r]}', '{"k": [1, 2]}')]
     ts = []
